@@ -210,8 +210,10 @@ Definition SIG_PROBE_LOST := 10%N.
 Definition SIG_HANG := 11%N.        (* a frame was not processed within the bounded wait *)
 Definition h_sig (c : hcase) : N :=
   if negb (h_fatal c =? 0) then
-    (if (1 <=? h_fatal c) && (h_fatal c <=? 5) then Z.to_N (h_fatal c)
-     else if h_fatal c =? 11 then SIG_HANG else 90%N)
+    (if (1 <=? h_fatal c) && (h_fatal c <=? 6) then Z.to_N (h_fatal c)    (* 6: arp.Unmarshal reached *)
+     else if h_fatal c =? 11 then SIG_HANG
+     else if (h_fatal c =? 12) || (h_fatal c =? 13) then Z.to_N (h_fatal c)  (* decoder goroutine / knock detector *)
+     else 90%N)
   else if ev_mem (h_probe c) (h_events c) then 0%N else SIG_PROBE_LOST.
 
 Definition h_violations (cs : list hcase) : list (N * N) :=
